@@ -302,6 +302,29 @@ pub fn run(g: &mut Global) {
         },
         &check,
     );
+    // periodic stage: cheap O(1)-per-step accumulators on saw-tooths of every period 2..n+3 and
+    // many band bases (a biased rounding error per period is what makes a running sum drift)
+    const PK: [Kind; 5] = [Kind::Sma, Kind::Wma, Kind::Sd, Kind::Bb, Kind::Mfi];
+    const PN: [usize; 6] = [2, 3, 4, 5, 8, 14];
+    let nbase = g.tier.pick(12u64, 40u64);
+    let plen = g.tier.pick(200_000usize, 1_000_000usize);
+    g.exhaustive(
+        "periodic",
+        5 * 6 * 16 * nbase,
+        &move |i| {
+            let bi = i % nbase;
+            let r = i / nbase;
+            let sawi = (r % 16) as usize;
+            let r = r / 16;
+            let n = PN[(r % 6) as usize];
+            let kind = PK[(r / 6) as usize];
+            let mut s = seed ^ (bi + 1).wrapping_mul(0xA0761D6478BD642F);
+            let u = unit(&mut s);
+            let base = 10f64.powf(-3.0 + 9.0 * u);
+            Case { kind, n, regime: 4, base: X(base), seed: splitmix(&mut s), len: plen, saw: 2 + sawi % (n + 2) }
+        },
+        &check,
+    );
     let ml = g.tier.pick(60_000usize, 400_000usize);
     g.random("random", g.tier.pick(480, 1600), &move || strategy(ml), &check);
 }
